@@ -32,6 +32,12 @@
                                             stored dtype already is the (native) dtype asked for
   * nibabel/dataobj_images.py:225-357      `get_fdata(dtype)` cache (reused only for the same dtype), `uncache`
   * nibabel/filebasedimages.py `to_bytes`  serialises through `to_file_map(BytesIO map)` (rebinds `file_map`!)
+  * nibabel/volumeutils.py:392-402         `maps_file(arr)`: follows the `.base` chain — true for a `np.memmap` AND for a
+                                            base-class view of one (`np.asarray(memmap)`, `[::1]`, `.T.T`, …), the guard
+                                            of both `to_file_map` since fix ae98171b (before: `isinstance(data, np.memmap)`)
+  * nibabel/spatialimages.py:474-520       `SpatialImage.__init__(dataobj, affine, header)`: header COPIED
+                                            (`from_header`), dtype/fields of the given header kept, `update_header()`,
+                                            `file_map` fresh (no filename) — the re-wrap op `Klass(view, img.affine, img.header)`
 
   Abstractions
   * a file's content is what a FRESH load decodes to: (class, data id, affine id, on-disk dtype, byte order,
@@ -182,7 +188,22 @@ inductive Cache where
   | alias (w : Bool)             -- the float memmap of the source file itself (`astype(copy=False)`)
   deriving Repr, DecidableEq, Inhabited
 
-/-- a lazily loaded image: header state + array proxy + caches -/
+/-- what `img.dataobj` is -/
+inductive Arr where
+  | proxy                        -- the ArrayProxy of a loaded image
+  | owned (d : Nat) (fl : Bool)  -- an ndarray that owns its memory (`fl`: floating dtype)
+  | view (inst : Bool)           -- an array reading the memmap of the source file (layout = the proxy spec below);
+                                 -- `inst`: it IS an `np.memmap` instance (else a base-class view of one)
+  deriving Repr, DecidableEq, Inhabited
+
+/-- the copy-before-open guard of `to_file_map` -/
+inductive Guard where
+  | none     -- pinned tree: no copy
+  | inst     -- fae418e9 … ae98171b^: `isinstance(data, np.memmap)`
+  | base     -- current: `maps_file(data)` (follows `.base`)
+  deriving Repr, DecidableEq, Inhabited
+
+/-- a lazily loaded image (or an array image re-wrapped from one): header state + data object + caches -/
 structure Img where
   cls : Cls
   dt : DT               -- header data dtype (what the next save writes)
@@ -191,7 +212,8 @@ structure Img where
   aff : Nat             -- img.affine
   xf : XF               -- affine fields of the HEADER
   data : Nat            -- GHOST: data id the proxy decoded when the image was loaded (not used by `step`)
-  src : Path            -- proxy.file_like
+  arr : Arr             -- kind of `img.dataobj`
+  src : Path            -- proxy.file_like / the file the viewed memmap maps
   srcDt : DT            -- proxy spec: dtype ...
   srcBe : Bool          -- ... its byte order ...
   srcScaled : Bool      -- ... and slope/inter the proxy was built with
@@ -206,7 +228,8 @@ def Img.hdrAff (im : Img) : Nat := im.xf.best
 /-- result of `np.asanyarray(self.dataobj)` -/
 inductive Mat where
   | copy (d : Nat)      -- fresh ndarray
-  | ref (p : Path) (dt : DT) (be : Bool) (scaled : Bool)   -- np.memmap on `p`, interpreting it with this layout
+  | ref (p : Path) (dt : DT) (be : Bool) (scaled : Bool) (inst : Bool)
+        -- array backed by np.memmap on `p`, interpreting it with this layout; `inst`: an np.memmap instance
   deriving Repr, DecidableEq, Inhabited
 
 /-- read `p` through a proxy / memmap built for layout (dt, byte order, scaled): `none` = SIGBUS / zeros /
@@ -220,19 +243,26 @@ def readLayout (fs : FS) (p : Path) (dt : DT) (be : Bool) (scaled : Bool) : Opti
     is applied (arrayproxy.py `_get_scaled` / volumeutils.py `apply_read_scaling`, `array_from_file`) -/
 def Img.mapped (im : Img) : Bool := im.mm && !im.src.compressed && !im.srcScaled
 
-/-- `np.asanyarray(img.dataobj)` -/
+/-- `np.asanyarray(img.dataobj)`: the proxy reads (or maps) the file; an array image hands out its array -/
 def materialise (fs : FS) (im : Img) : Option Mat :=
-  match readLayout fs im.src im.srcDt im.srcBe im.srcScaled with
-  | none => none
-  | some d => if im.mapped then some (.ref im.src im.srcDt im.srcBe im.srcScaled) else some (.copy d)
+  match im.arr with
+  | .owned d _ => some (.copy d)
+  | .view inst => some (.ref im.src im.srcDt im.srcBe im.srcScaled inst)
+  | .proxy =>
+    match readLayout fs im.src im.srcDt im.srcBe im.srcScaled with
+    | none => none
+    | some d => if im.mapped then some (.ref im.src im.srcDt im.srcBe im.srcScaled true) else some (.copy d)
 
 /-- touch the elements of a materialised array -/
 def deref (fs : FS) : Mat → Option Nat
   | .copy d => some d
-  | .ref p dt be sc => readLayout fs p dt be sc
+  | .ref p dt be sc _ => readLayout fs p dt be sc
 
 /-- dtype of the in-memory array is floating: float storage, or integer storage with scale factors -/
-def Img.arrFloat (im : Img) : Bool := im.srcDt.isFloat || im.srcScaled
+def Img.arrFloat (im : Img) : Bool :=
+  match im.arr with
+  | .owned _ fl => fl
+  | _ => im.srcDt.isFloat || im.srcScaled
 
 /-- header of the image actually written to `q` before `update_header` (`save()` conversion rules):
     (dtype, tag, byte order, affine fields).
@@ -276,9 +306,16 @@ structure St where
   fs : FS
   img : Option Img
 
-/-- `to_file_map` of the (converted) image onto `q`.  `orig = true` is the logic BEFORE the repair
-    (no copy of a memmap).  Returns outcome and the new file system. -/
-def writeTo (orig : Bool) (fs : FS) (im : Img) (q : Path) : Out × FS :=
+/-- does the guard `g` copy a file-backed array (`inst`: it is an np.memmap instance)? -/
+def Guard.copies (g : Guard) (inst : Bool) : Bool :=
+  match g with
+  | .none => false
+  | .inst => inst
+  | .base => true
+
+/-- `to_file_map` of the (converted) image onto `q` under copy guard `g` (`.none` = the pinned logic BEFORE the
+    first repair, `.inst` = instance check only, `.base` = current).  Returns outcome and the new file system. -/
+def writeTo (orig : Guard) (fs : FS) (im : Img) (q : Path) : Out × FS :=
   -- data = np.asanyarray(self.dataobj)
   match materialise fs im with
   | none => (.bad, fs)
@@ -286,7 +323,7 @@ def writeTo (orig : Bool) (fs : FS) (im : Img) (q : Path) : Out × FS :=
     -- if maps_file(data): data = np.array(data)     [the repair; maps_file = a np.memmap or a view of one]
     let m? : Option Mat :=
       match m with
-      | .ref _ _ _ _ => if orig then some m else (deref fs m).map Mat.copy
+      | .ref _ _ _ _ inst => if orig.copies inst then (deref fs m).map Mat.copy else some m
       | .copy d => some (.copy d)
     match m? with
     | none => (.bad, fs)
@@ -306,7 +343,7 @@ def writeTo (orig : Bool) (fs : FS) (im : Img) (q : Path) : Out × FS :=
     `update_header()` also reconciles the image's OWN header with `img.affine` in place.  A converting save works on
     `Klass.from_image(img)` = `Klass(img.dataobj, img.affine, from_header(img.header))` — a COPY of the header that
     `update_header()` reconciles with `img.affine`; the original header keeps whatever was edited into it. -/
-def save (orig : Bool) (fs : FS) (im : Img) (q : Path) : Out × FS × Img :=
+def save (orig : Guard) (fs : FS) (im : Img) (q : Path) : Out × FS × Img :=
   match writeTo orig fs im q with
   | (.saved c, fs') =>
       (.saved c, fs', if outCls im.cls q.ext = im.cls then { im with fname := some q, xf := outXF im q } else im)
@@ -322,7 +359,7 @@ def getFdata (fs : FS) (im : Img) (w : Bool) : Option (Nat × Img) :=
       | none => none
       | some d =>
         -- np.asanyarray(dataobj, dtype): no copy when the memmap already has that (native) dtype
-        let aliasing := (match m with | .ref _ _ _ _ => true | .copy _ => false) && !im.srcBe &&
+        let aliasing := (match m with | .ref _ _ _ _ _ => true | .copy _ => false) && !im.srcBe &&
                           im.srcDt == (if w then DT.f32 else DT.f64)
         some (d, { im with cache := if aliasing then .alias w else .owned d w })
   match im.cache with
@@ -353,6 +390,15 @@ def mghOk : DT → Bool
   | .f64 => false
   | _ => true
 
+/-- which array the re-wrap op hands to the constructor -/
+inductive Wrap where
+  | plainView   -- `np.asarray(img.dataobj)`, `…[::1]`, `….T.T`, `np.asanyarray(…).view(np.ndarray)`, `np.asfortranarray(…)`
+  | mapInst     -- `np.asanyarray(img.dataobj)`, `np.asanyarray(img.dataobj)[..., :]`  (np.memmap instances)
+  | proxy       -- `img.dataobj` itself
+  | copy        -- `np.array(img.dataobj)`
+  | fdata       -- `img.get_fdata()` (the memmap itself for a native float64 unscaled mapped file)
+  deriving Repr, DecidableEq, Inhabited
+
 inductive Op where
   | load (p : Path) (mm : Bool)
   | fdata (w : Bool)     -- `get_fdata()` / `get_fdata(dtype=np.float32)`
@@ -364,13 +410,15 @@ inductive Op where
   | setDt (dt : DT)
   | save (q : Path)
   | toBytes
+  | wrap (k : Wrap)      -- replace the live image by `type(img)(<array>, img.affine, img.header)`
   deriving Repr, DecidableEq, Inhabited
 
 def load (fs : FS) (p : Path) (mm : Bool) : Option Img :=
   match fs p with
   | some (.intact c) =>
       some { cls := c.cls, dt := c.dt, be := c.be, tag := c.tag, aff := c.aff, xf := c.xf, data := c.data, src := p,
-             srcDt := c.dt, srcBe := c.be, srcScaled := c.scaled, mm := mm, fname := some p, cache := .none }
+             arr := .proxy, srcDt := c.dt, srcBe := c.be, srcScaled := c.scaled, mm := mm, fname := some p,
+             cache := .none }
   | _ => none
 
 /-- `img.header.set_sform(B, code=3)` / `set_sform(None, code=0); set_qform(B, code=2)` / MGH direction fields -/
@@ -380,13 +428,44 @@ def hdrEditXF (c : Cls) (k : Nat) (x : XF) : XF :=
   | .spm2 => x
   | _ => if k % 2 = 0 then { x with sc := 3, sa := k } else { x with sc := 0, qc := 2, qa := k }
 
+/-- the new image of a re-wrap: header copied and reconciled with the affine (`__init__` → `update_header`),
+    no filename, no cache -/
+def rewrapped (im : Img) (a : Arr) : Img :=
+  { im with arr := a, fname := none, cache := .none, xf := reconcile closeId im.cls im.aff im.xf }
+
+/-- `type(img)(<array of kind k>, img.affine, img.header)`; `none` = building the array already failed (stale proxy) -/
+def wrapArr (fs : FS) (im : Img) : Wrap → Option Img
+  | .proxy => some (rewrapped im im.arr)
+  | .fdata =>
+      match getFdata fs im false with
+      | none => none
+      | some (d, im1) =>
+          some (rewrapped im (match im1.cache with | .alias false => .view true | _ => .owned d true))
+  | k =>
+      match materialise fs im with
+      | none => none
+      | some (.copy d) => some (rewrapped im (.owned d im.arrFloat))
+      | some (.ref p dt be sc inst) =>
+          if k = .copy then (readLayout fs p dt be sc).map (fun d => rewrapped im (.owned d im.arrFloat))
+          else some (rewrapped im (.view (inst && k == .mapInst)))
+
+/-- the re-wrap op: build the new image, then touch ITS data once (`np.array(new.dataobj)`): a stale proxy / view
+    shows here (a `get_fdata()` cache that owns its memory does not go stale) -/
+def wrapImg (fs : FS) (im : Img) (k : Wrap) : Option Img :=
+  match wrapArr fs im k with
+  | none => none
+  | some im' =>
+    match (materialise fs im').bind (deref fs) with
+    | none => none
+    | some _ => some im'
+
 /-- ops other than `load` need a live image -/
 def withImg (s : St) (f : Img → Out × St) : Out × St :=
   match s.img with
   | none => (.noImg, s)
   | some im => f im
 
-def step (orig : Bool) (s : St) : Op → Out × St
+def step (orig : Guard) (s : St) : Op → Out × St
   | .load p mm =>
       match load s.fs p mm with
       | some im => (.loadOk, { s with img := some im })
@@ -411,6 +490,10 @@ def step (orig : Bool) (s : St) : Op → Out × St
   | .toBytes => withImg s fun im =>
       match toBytes s.fs im with
       | (o, im') => (o, { s with img := some im' })
+  | .wrap k => withImg s fun im =>
+      match wrapImg s.fs im k with
+      | some im' => (.unit, { s with img := some im' })
+      | none => (.bad, s)
 
 /-- end-of-history usability probe: `get_fdata()` then `np.asanyarray(img.dataobj)` -/
 def probe (s : St) : Option (Option (Nat × Nat)) :=
@@ -425,7 +508,7 @@ def probe (s : St) : Option (Option (Nat × Nat)) :=
       | some d2 => some (some (d, d2))
 
 /-- run a history; stops at the first `bad` (the process is dead / the data are gone) -/
-def run (orig : Bool) : St → List Op → List Out × Option St
+def run (orig : Guard) : St → List Op → List Out × Option St
   | s, [] => ([], some s)
   | s, op :: rest =>
     match step orig s op with
